@@ -14,13 +14,18 @@ import zlib
 from typing import Union, IO, Iterable, Any, Optional, Dict
 from warnings import warn
 
-from .const import NAMED_TYPES
+from .const import NAMED_TYPES, AVRO_TYPES
 from .io.binary_encoder import BinaryEncoder
 from .io.json_encoder import AvroJSONEncoder
 from .validation import _validate
 from .read import HEADER_SCHEMA, SYNC_SIZE, MAGIC, reader
 from .logical_writers import LOGICAL_WRITERS
-from .schema import extract_record_type, extract_logical_type, parse_schema
+from .schema import (
+    extract_record_type,
+    extract_logical_type,
+    parse_schema,
+    schema_name,
+)
 from ._write_common import _is_appendable
 from .types import Schema, NamedSchemas
 
@@ -445,6 +450,99 @@ else:
     BLOCK_WRITERS["lz4"] = lz4_write_block
 
 
+def _names_in_schema(schema, namespace, defined, referenced):
+    """Collect the full names a (raw or parsed) schema defines and refers to"""
+    if isinstance(schema, list):
+        for s in schema:
+            _names_in_schema(s, namespace, defined, referenced)
+    elif isinstance(schema, dict):
+        schema_type = schema.get("type")
+        if schema_type in NAMED_TYPES:
+            namespace, fullname = schema_name(schema, namespace)
+            defined.add(fullname)
+        for field in schema.get("fields", []) if schema_type != "enum" else []:
+            if isinstance(field, dict) and "type" in field:
+                _names_in_schema(field["type"], namespace, defined, referenced)
+        for key in ("items", "values"):
+            if key in schema:
+                _names_in_schema(schema[key], namespace, defined, referenced)
+    elif isinstance(schema, str) and schema not in AVRO_TYPES:
+        if "." not in schema and namespace:
+            schema = namespace + "." + schema
+        referenced.append(schema)
+
+
+def _inline_definitions(schema, namespace, missing, named_schemas):
+    """Copy of schema in which the first reference to each name in `missing`
+    is replaced by its definition from named_schemas"""
+    if isinstance(schema, list):
+        return [
+            _inline_definitions(s, namespace, missing, named_schemas) for s in schema
+        ]
+    elif isinstance(schema, dict):
+        schema_type = schema.get("type")
+        if schema_type in NAMED_TYPES:
+            namespace, _ = schema_name(schema, namespace)
+        copy = dict(schema)
+        if "fields" in schema and schema_type != "enum":
+            copy["fields"] = [
+                dict(
+                    field,
+                    type=_inline_definitions(
+                        field["type"], namespace, missing, named_schemas
+                    ),
+                )
+                if isinstance(field, dict) and "type" in field
+                else field
+                for field in schema["fields"]
+            ]
+        for key in ("items", "values"):
+            if key in schema:
+                copy[key] = _inline_definitions(
+                    schema[key], namespace, missing, named_schemas
+                )
+        return copy
+    elif isinstance(schema, str) and schema not in AVRO_TYPES:
+        name = schema
+        if "." not in name and namespace:
+            name = namespace + "." + name
+        if name in missing:
+            missing.discard(name)
+            definition = {
+                key: value
+                for key, value in named_schemas[name].items()
+                if key not in ("__fastavro_parsed", "__named_schemas")
+            }
+            # Definitions in named_schemas are parsed: their names are full
+            return _inline_definitions(definition, "", missing, named_schemas)
+    return schema
+
+
+def _self_contained_schema(schema, named_schemas):
+    """The schema to be written in a file header: `schema` itself, or when it
+    refers to types it does not define (they were parsed separately against
+    the same named_schemas), a copy with those definitions inlined at their
+    first reference"""
+    defined = set()
+    referenced = []
+    _names_in_schema(schema, "", defined, referenced)
+    todo = list(referenced)
+    missing = set()
+    while todo:
+        name = todo.pop()
+        if name in defined or name in missing or name not in named_schemas:
+            continue
+        missing.add(name)
+        # what the missing definition refers to may be missing as well
+        inner_defined = set()
+        inner_referenced = []
+        _names_in_schema(named_schemas[name], "", inner_defined, inner_referenced)
+        todo.extend(inner_referenced)
+    if not missing:
+        return schema
+    return _inline_definitions(schema, "", missing, named_schemas)
+
+
 class GenericWriter(ABC):
     def __init__(self, schema, metadata=None, validator=None, options={}):
         self._named_schemas = {}
@@ -481,6 +579,12 @@ class GenericWriter(ABC):
                 else:
                     schemas.append(s)
             schema = schemas
+
+        if schema is not None:
+            # Types that were parsed separately into a shared named_schemas
+            # dictionary and are only referred to by name must still be
+            # defined in the header or the file cannot be read on its own
+            schema = _self_contained_schema(schema, self._named_schemas)
 
         self.metadata["avro.schema"] = json.dumps(schema)
 
